@@ -193,9 +193,12 @@ func ReportUnresolved(logStream, dbStream io.Reader, ruc ReportUnresolvedConfig)
 	return utils.WithResolvedDatabase(dbStream, ruc.ParserConfig, ruc.ResolverConfig,
 		func(nl shared.DBNodeMap) error {
 			r := NewUnsolvedReporter(ruc.ReporterConfig, nl)
-			defer r.Flush()
 			f := filter.GetIntervalNodeFilter(ruc.FilterConfig)
-			return utils.WalkNodesInStream(logStream, ruc.DateFormat, ruc.ParserConfig, f, r)
+			err := utils.WalkNodesInStream(logStream, ruc.DateFormat, ruc.ParserConfig, f, r)
+			if ferr := r.Flush(); err == nil {
+				err = ferr
+			}
+			return err
 		})
 }
 
@@ -210,9 +213,12 @@ type ReportQuantityConfig struct {
 // ReportQuantity Generates a quantity report
 func ReportQuantity(logStream io.Reader, rqc ReportQuantityConfig) error {
 	r := NewQuantityReporter(rqc.ReporterConfig, rqc.Descending)
-	defer r.Flush()
 	f := filter.GetIntervalNodeFilter(rqc.FilterConfig)
-	return utils.WalkNodesInStream(logStream, rqc.DateFormat, rqc.ParserConfig, f, r)
+	err := utils.WalkNodesInStream(logStream, rqc.DateFormat, rqc.ParserConfig, f, r)
+	if ferr := r.Flush(); err == nil {
+		err = ferr
+	}
+	return err
 }
 
 type ReportTotalsConfig struct {
@@ -227,8 +233,11 @@ func ReportTotals(logStream, dbStream io.Reader, rqc ReportTotalsConfig) error {
 	return utils.WithResolvedDatabase(dbStream, rqc.ParserConfig, rqc.ResolverConfig,
 		func(nl shared.DBNodeMap) error {
 			r := NewTotalReporter(rqc.ReporterConfig, nl)
-			defer r.Flush()
 			f := filter.GetIntervalNodeFilter(rqc.FilterConfig)
-			return utils.WalkNodesInStream(logStream, rqc.DateFormat, rqc.ParserConfig, f, r)
+			err := utils.WalkNodesInStream(logStream, rqc.DateFormat, rqc.ParserConfig, f, r)
+			if ferr := r.Flush(); err == nil {
+				err = ferr
+			}
+			return err
 		})
 }
